@@ -43,7 +43,8 @@ MIN_COUNTERS = {"quick": {"handle_pokes": 30000, "must_raise": 2500, "graph_scan
 SHARD_TIMEOUT = {"quick": 900, "thorough": 5400}
 
 DEL_KINDS = ["del_cells", "del_cells", "del_space", "del_ref", "del_model_ref", "remove_bases", "rename_cells",
-             "rename_space", "space_formula", "override_cells", "set_formula", "new_cells", "change_ref", "add_bases"]
+             "rename_space", "space_formula", "override_cells", "set_formula", "new_cells", "change_ref", "add_bases",
+             "assign", "assign"]      # (values assigned by the user: deleting their cells must not leave dependents)
 
 
 def gen_cases(tier, seed):
